@@ -6,6 +6,8 @@ ASSUMPTIONS = [
     "nondeterministic stub (returns, or raises any exception, at the call) and a symbolic naming policy before the call: on EVERY "
     "exit namespace_manager.default equals its value before the call; side condition checked on the source: no other function of "
     "the parser module assigns namespace_manager.default",
+    "E1 lemma: EdifParser.parse_libraryRef on a symbolic two-library netlist under the EDIF naming plug-in (token glue stubbed): "
+    "the result is the declared library whose identifier equals the reference ignoring case; an undeclared library is rejected",
     "E2: the EDIF tokenizer terminates and loses nothing on every buffer up to the length bound",
     "outside: 'never hands back a half-built structure' for whole files; time-outs on large inputs",
 ]
@@ -17,6 +19,8 @@ def jobs(tier):
     for w in ("edif", "verilog", "eblif"):
         out.append(dict(name="C15/%s.parse/policy" % w, engine="E1/symheap", module="vf.e1.parser_jobs",
                         func="policy_job", timeout=300, args=dict(which=w, tier=tier)))
+    out.append(dict(name="C15/parse_libraryRef", engine="E1/symheap", module="vf.e1.edif_jobs",
+                    func="libraryref_job", timeout=900, args=dict(tier=tier)))
     tmo = 200 if q else 1200
     for fn in ("h_tokenizer_terminates_and_loses_nothing",):
         out.append(e2job("C15", "c03", fn, tmo, tier, {"VF_L": 2 if q else 3}))
